@@ -195,6 +195,8 @@ def c12_jobs(ctx, names, focus=()):
             mo = lambda obj_, mm_: {"vars": [("multiobj", ([-4.0, -4.0], [4.0, 4.0]))], "obj": obj_, "minmax": mm_, "weights": [0.3, 0.7], "seed": seed}
             cfg = {"max_cycles": 3, "fitness_error": None, "early_stopping": None}
             jobs.append(({"opt": nm, "cfg": cfg, "task": mo("multi2", "max")}, {"opt": nm, "cfg": cfg, "task": mo("neg:multi2", "min")}))
+            # the same with objectives that hand out STORED rows (a score table, a memoised objective): the framework must not edit what the user returned
+            jobs.append(({"opt": nm, "cfg": cfg, "task": mo("cached:multi2", "max")}, {"opt": nm, "cfg": cfg, "task": mo("cached:neg:multi2", "min")}))
     return jobs
 
 
